@@ -16,6 +16,7 @@
 (*   Z-total    sizeof answers or says SizeofError                  (C05)   *)
 (*   Closed     a parse fails only with a ConstructError            (C06)   *)
 (*   Prefix     no value from a strict prefix of a canonical encoding (C06) *)
+(*   Faults     a failing root stream surfaces as StreamError (MC_FAULTS) (C06)*)
 (*   Rebuild    what was parsed can be built again (explicit fragment) (C02)*)
 (*   Normal     ... and parses back to the same value              (C01/C02) *)
 (*   Tight      ... using all of the bytes built                           *)
@@ -53,9 +54,10 @@ InputsFor(i) == IF i <= Len(S1) + Len(S4) /\ FocusKinds = {} THEN UInputs ELSE S
 NoCall == [op |-> "none", events |-> <<>>]
 CaseRec(op, d, arg) == [op |-> op, data |-> d, start |-> 0, kw |-> UKw, flt |-> NoFlt, arg |-> arg, events |-> <<>>, model |-> TRUE,
                         res |-> [ok |-> TRUE, err |-> "", p |-> 0, v |-> VNone, path |-> <<>>]]
-Call(op, d, arg) == LET cs == CaseRec(op, d, arg)
-                        r == Model(UProgs[pi], cs)
-                    IN [cs EXCEPT !.events = r.ev, !.res = ModelRes(cs, r) @@ [path |-> <<>>, oom |-> IsOOM(r)]]
+CallF(op, d, arg, flt) == LET cs == [CaseRec(op, d, arg) EXCEPT !.flt = flt]
+                              r == Model(UProgs[pi], cs)
+                          IN [cs EXCEPT !.events = r.ev, !.res = ModelRes(cs, r) @@ [path |-> <<>>, oom |-> IsOOM(r)]] @@ [ops |-> r.s.ops]
+Call(op, d, arg) == CallF(op, d, arg, NoFlt)
 
 Init == /\ pi \in 1..NP /\ data \in {d \in InputsFor(pi) : InSlice(pi, d)} /\ phase = "start" /\ cur = NoCall /\ log = <<>>
         /\ pc = 0 /\ stack = <<>> /\ fails = <<>>
@@ -98,6 +100,15 @@ PrefixFails(n, b, j) ==       \* every strict prefix of the canonical encoding b
     ELSE LET p == Call("parse", SubSeq(b.res.v.b, 1, j), VNone) IN
          (p.res.oom \/ C06Prefix(n, b, p) # "fail") /\ PrefixFails(n, b, j - 1)
 
+\* C06, stream faults: whatever operation of the root stream fails (raises / transfers short / cannot seek / cannot tell), the call
+\* fails with StreamError or -- where the fault did not bite, or a construct may recover -- as C06Fault allows
+Faults == "MC_FAULTS" \in DOMAIN IOEnv /\ IOEnv.MC_FAULTS = "1"
+FaultOk(n, clean) ==
+    \A mode \in {"raise", "short", "noseek", "notell"} :
+        \A k \in (IF mode \in {"raise", "short"} THEN 1..Min(clean.ops, 10) ELSE {0}) :
+            LET f == CallF(clean.op, clean.data, clean.arg, [k |-> k, mode |-> mode]) IN
+            f.res.oom \/ C06Fault(n, clean, f) # "fail"
+
 SessionChecks ==
     LET n == UProgs[pi]
         z == ZCall
@@ -112,6 +123,7 @@ SessionChecks ==
             \E t \in {<<>>, <<255>>, <<0, 1>>} : LET p == Call("parse", cur.res.v.b \o t, VNone) IN ~p.res.oom /\ C05Exact(n, z, p) = "fail")
         THEN F("Z-exact") ELSE <<>>)
     \o (IF phase = "build" /\ cur.res.ok /\ ~PrefixFails(n, cur, Len(cur.res.v.b) - 1) THEN F("Prefix") ELSE <<>>)
+    \o (IF Faults /\ phase \in {"parse", "build"} /\ ~FaultOk(n, cur) THEN F("Faults") ELSE <<>>)
     \o (IF phase = "build" /\ Explicit(n) /\ ~cur.res.ok THEN F("Rebuild") ELSE <<>>)
     \o (IF phase = "reparse" /\ Explicit(n) /\
            ~(cur.res.ok /\ PyEq(cur.res.v, log[1].v)) THEN F("Normal") ELSE <<>>)
